@@ -582,6 +582,25 @@ def _probe_reductions(ctx, ti, jnp):
       want = u0 + dt * sum((b * g for b, g in zip([3 / 8, 0, 3 / 8, 1 / 4], gs)), np.zeros(n))
       ctx.expect(close(ti.imex_rk_sil3(eqi, dt)(j0), want), 'reduction:sil3-implicit',
                  'SIL3 with F=0 is not the DIRK of (a_im, b_im)', inp)
+      # user-supplied tableaux (random consistent ones; the last explicit/implicit weights are non-zero)
+      s_ = int(rng.integers(2, 5))
+      ta_ex = [[float(v) for v in rng.uniform(-1, 1, i + 1)] for i in range(s_ - 1)]
+      ta_im = [[float(v) for v in rng.uniform(-0.5, 0.5, i + 1)] + [float(rng.uniform(0.1, 0.6))]
+               for i in range(s_ - 1)]
+      tb_ex = [float(v) for v in rng.uniform(0.2, 1, s_)]
+      tb_im = [float(v) for v in rng.uniform(0.2, 1, s_)]
+      tab = ti.ImExButcherTableau(a_ex=ta_ex, a_im=ta_im, b_ex=tb_ex, b_im=tb_im)
+      inpt = dict(inp, a_ex=ta_ex, a_im=ta_im, b_ex=tb_ex, b_im=tb_im)
+      ctx.expect(close(ti.imex_runge_kutta(tab, eqx, dt)(j0), erk([[]] + ta_ex, tb_ex)),
+                 'reduction:imexrk-explicit',
+                 'imex_runge_kutta with G=0 is not the explicit RK of the supplied (a_ex, b_ex)', inpt)
+      gs = [Gm @ u0]
+      for i, row in enumerate(ta_im, start=1):
+        ystar = u0 + dt * sum((row[j] * gs[j] for j in range(i)), np.zeros(n))
+        gs.append(Gm @ np.linalg.solve(np.eye(n) - dt * row[i] * Gm, ystar))
+      want = u0 + dt * sum((b * g for b, g in zip(tb_im, gs)), np.zeros(n))
+      ctx.expect(close(ti.imex_runge_kutta(tab, eqi, dt)(j0), want), 'reduction:imexrk-implicit',
+                 'imex_runge_kutta with F=0 is not the DIRK of the supplied (a_im, b_im)', inpt)
       p, c = u0, rng.standard_normal(n)
       lf = ti.semi_implicit_leapfrog(eqx, dt)((jnp.asarray(p), jnp.asarray(c)))
       ctx.expect(close(lf[0], c) and close(lf[1], p + 2 * dt * Fn(c)), 'reduction:leapfrog-explicit',
